@@ -1,7 +1,7 @@
 (* The single entry point of the executable model: one S-expression in, one out. *)
 From Coq Require Import String.
 From Morph Require Import Base.UStr Base.Sexp Gen.Tables Model.SqlTypes Model.Spec20 Model.Terms Model.Data Model.Engine
-  Model.Mapping Model.Partition Model.Spec Model.Wire Model.NQuads Model.Config Model.Writer.
+  Model.Mapping Model.Partition Model.Spec Model.Wire Model.NQuads Model.Config Model.Writer Model.Functions.
 Local Open Scope N_scope.
 
 Definition run_c20 (tag : ustr) (args : list sexp) : option sexp :=
@@ -20,11 +20,12 @@ Definition run_c20 (tag : ustr) (args : list sexp) : option sexp :=
   else None.
 
 (* ---- mapping family *)
-Definition engine_lines (c : ccfg) (srcs : list source) (d : document) : result (list ustr) :=
+Definition mk_fenv (ex : list fexec) : fenv := {| fn_params := fun_params; fn_apply := apply_fun; fn_table := ex |}.
+Definition engine_lines (c : ccfg) (srcs : list source) (d : document) (ex : list fexec) : result (list ustr) :=
   rdo rules <- normalise d;
-  materialize_rules (to_ecfg c) rules (case_get_data c srcs).
-Definition spec_case_lines (c : ccfg) (srcs : list source) (d : document) : list ustr :=
-  spec_lines (to_scfg c) d (case_tables srcs).
+  materialize_rules (to_ecfg c) (mk_fenv ex) rules (case_get_data c srcs).
+Definition spec_case_lines (c : ccfg) (srcs : list source) (d : document) (ex : list fexec) : list ustr :=
+  spec_lines (to_scfg c) (mk_fenv ex) d (case_tables srcs).
 
 Definition sx_mkind (k : mkind) : sexp :=
   A (match k with KConst => u "const" | KTempl => u "templ" | KRef => u "ref" | KQuoted => u "quoted" | KParent => u "parent"
@@ -47,14 +48,16 @@ Definition sx_labels (l : option (list (ustr * label))) : sexp :=
 Definition run_map (tag : ustr) (args : list sexp) : option sexp :=
   if tag_is tag "mat" then
     match args with
-    | [c; s; d] => do c' <- de_cfg c; do s' <- de_listof de_source s; do d' <- de_doc d;
-                   Some (if case_unmodelled s' d' then sx_result (Err EUnmodelled) else sx_result (engine_lines c' s' d'))
+    | [c; s; d; ex] => do c' <- de_cfg c; do s' <- de_listof de_source s; do d' <- de_doc d; do ex' <- de_execs ex;
+                   Some (if case_unmodelled s' d' then sx_result (Err EUnmodelled) else sx_result (engine_lines c' s' d' ex'))
     | _ => None
     end
   else if tag_is tag "spec" then
     match args with
-    | [c; s; d] => do c' <- de_cfg c; do s' <- de_listof de_source s; do d' <- de_doc d;
-                   Some (if case_unmodelled s' d' then sx_result (Err EUnmodelled) else L [A (u "ok"); sx_strs (spec_case_lines c' s' d')])
+    | [c; s; d; ex] => do c' <- de_cfg c; do s' <- de_listof de_source s; do d' <- de_doc d; do ex' <- de_execs ex;
+                   (* a case the function registry does not follow (non-ASCII case mapping ...) is unmodelled for the Spec too *)
+                   Some (if case_unmodelled s' d' || (match engine_lines c' s' d' ex' with Err EUnmodelled => true | _ => false end)
+                         then sx_result (Err EUnmodelled) else L [A (u "ok"); sx_strs (spec_case_lines c' s' d' ex')])
     | _ => None
     end
   else if tag_is tag "rules" then
